@@ -7,6 +7,7 @@ import (
 	"math/rand"
 	"strconv"
 	"strings"
+	"sync"
 	"time"
 
 	xmpp "gosrc.io/xmpp"
@@ -45,6 +46,37 @@ func c10hexes(ws [][]byte) string {
 	return strings.Join(p, ";")
 }
 
+// gateT delays the write of one payload until another payload has been written (or a timeout): with the queue
+// lock held across store-and-write nobody else can write meanwhile, so the delayed sender still comes first.
+type gateT struct {
+	*stubTransport
+	mu      sync.Mutex
+	hold    string
+	release string
+	seen    chan struct{}
+}
+
+func (g *gateT) Write(p []byte) (int, error) {
+	g.mu.Lock()
+	hold, release, seen := g.hold, g.release, g.seen
+	g.mu.Unlock()
+	if hold != "" && string(p) == hold {
+		select {
+		case <-seen:
+		case <-time.After(120 * time.Millisecond):
+		}
+	}
+	n, err := g.stubTransport.Write(p)
+	if release != "" && string(p) == release {
+		select {
+		case <-seen:
+		default:
+			close(seen)
+		}
+	}
+	return n, err
+}
+
 func (c10) Exec(c Case) []string {
 	st := newStub(nil)
 	cfg := &xmpp.Config{Jid: "u@localhost/r", Credential: xmpp.Password("p"), StreamManagementEnable: true}
@@ -53,6 +85,8 @@ func (c10) Exec(c Case) []string {
 	if err != nil {
 		return []string{"err:" + err.Error()}
 	}
+	gate := &gateT{stubTransport: st}
+	xmpp.VerifSetTransport(client, gate)
 	client.Session = &xmpp.Session{SMState: xmpp.SMState{Id: "sm1", UnAckQueue: stanza.NewUnAckQueue()}}
 	// the real receive loop runs next to the senders, fed through a pipe: `req` and `inmsg` ops arrive there
 	pr, pw := io.Pipe()
@@ -85,6 +119,21 @@ func (c10) Exec(c Case) []string {
 	var obs []string
 	for _, op := range c.Ops {
 		switch op[0] {
+		case "race":
+			// two concurrent senders; the first one's write is slow
+			a, b := unhx(op[1]), unhx(op[2])
+			gate.mu.Lock()
+			gate.hold, gate.release, gate.seen = a, b, make(chan struct{})
+			gate.mu.Unlock()
+			var wg sync.WaitGroup
+			wg.Add(2)
+			go func() { defer wg.Done(); client.SendRaw(a) }()
+			time.Sleep(3 * time.Millisecond)
+			go func() { defer wg.Done(); client.SendRaw(b) }()
+			wg.Wait()
+			gate.mu.Lock()
+			gate.hold, gate.release = "", ""
+			gate.mu.Unlock()
 		case "inmsg":
 			// an inbound stanza: counted by the receive loop, nothing is written
 			inbound++
@@ -141,6 +190,7 @@ func (c10) Generate(rng *rand.Rand, tier string, st *Stats) []Case {
 	mk("corpus-ack1", [][]string{{"sendraw", hx("<x/>")}, {"sendraw", hx("<y/>")}, {"ack", "1"}})
 	mk("corpus-stale", [][]string{{"sendraw", hx("<x/>")}, {"ack", "1"}, {"sendraw", hx("<y/>")}, {"ack", "1"}, {"ack", "2"}})
 	mk("corpus-answer-not-held", [][]string{c10op("a", "3"), c10op("r", ""), {"ack", "0"}})
+	mk("corpus-race", [][]string{{"sendraw", hx("<x/>")}, {"race", hx("<slow/>"), hx("<fast/>")}, {"ack", "2"}, {"race", hx("<slow2/>"), hx("<fast2/>")}, {"ack", "3"}})
 	mk("corpus-recv-answer-not-held", [][]string{{"sendraw", hx("<x/>")}, c10req(0), {"sendraw", hx("<y/>")}, {"ack", "1"}, {"inmsg"}, c10req(1), {"ack", "2"}})
 	// bounded-exhaustive: all histories of length <= L over a small alphabet
 	uniq := 0
@@ -191,6 +241,12 @@ func (c10) Generate(rng *rand.Rand, tier string, st *Stats) []Case {
 		inb := 0
 		ln := 1 + rng.Intn(120)
 		for j := 0; j < ln; j++ {
+			if i%40 == 0 && j%30 == 7 {
+				ops = append(ops, []string{"race", hx(fmt.Sprintf("<slow n='%d'/>", sent)), hx(fmt.Sprintf("<fast n='%d'/>", sent+1))})
+				sent += 2
+				st.Inc("op_race")
+				continue
+			}
 			switch x := rng.Intn(14); {
 			case x == 12:
 				ops = append(ops, []string{"inmsg"})
